@@ -177,8 +177,8 @@ def bisim(doc, decls, nfiles):
         if d is None:
             bad("missing-record", name, "structure %s has no generated C# type" % name)
             continue
-        if name in SPECIAL_STRUCTS:
-            continue
+        if name in SPECIAL_STRUCTS and not mm.flatten(name):
+            continue        # property-less open dictionaries; once they declare properties the record rule applies
         if d["kind"] != "record":
             bad("not-a-record", name, "structure %s is generated as %s" % (name, d["kind"]))
             continue
